@@ -127,7 +127,14 @@ type caseRun struct {
 	genuine    bool // the bytes delivered are all genuine boxes at their positions (swap / padding only)
 	*connState      // the first TCP connection of the case (the one that is mutated) / the UDP flow
 	nconn      int
-	sidIdx     map[uint32]int // session id -> script index (from the case header in the first payload)
+	sidIdx     map[uint32]int       // session id -> script index (from the case header in the first payload)
+	dgBySeq    [2]map[string][]byte // UDP: data datagrams by direction and "sid/seq" (for reflection)
+	dgBoxes    [2]map[string][]box
+	gap        bool // the close-with-data-in-flight family
+	gapDir     int
+	gapSeq     uint32
+	gapEvents  []string // what reached the receiving session, in order: A:seq:payload | C
+	gapHits    int
 	ucases     []string
 	uimpls     []string
 	now        int64
@@ -135,16 +142,18 @@ type caseRun struct {
 }
 
 type connState struct {
-	orig      [2][]byte
-	sent      [2][]byte // what the receiver got
-	boxes     [2][]box
-	dec       [2]*rc.StreamDecoder
-	nextNonce [2][]byte
-	held      []byte
-	cut       bool
-	nseg      [2]int
-	skipped   int
-	victim    bool
+	orig       [2][]byte
+	sent       [2][]byte // what the receiver got
+	boxes      [2][]box
+	dec        [2]*rc.StreamDecoder
+	nextNonce  [2][]byte
+	held       []byte
+	cut        bool
+	nseg       [2]int
+	skipped    int
+	victim     bool
+	rawSegs    [2][][]byte // the bytes of each aligned segment, per direction
+	nonceAfter [2][][]byte // the sender's next nonce after each of them
 }
 
 type box struct{ nonce, ct, pt, key []byte } // key: the AEAD key that sealed it
@@ -278,6 +287,9 @@ func (e *env) serve(c net.Conn) {
 			return
 		}
 	}
+	if cr.gap {
+		return // close at once, with the data in flight
+	}
 	// final acknowledgement of the client, then close (nothing of this side is in flight any more)
 	k := &sideRes{}
 	okK := readN(c, 1, k, 300*time.Second)
@@ -287,12 +299,15 @@ func (e *env) serve(c net.Conn) {
 	cr.mu.Unlock()
 }
 
-func (e *env) newCase(mut *mutation) *caseRun {
+func (e *env) newCase(mut *mutation) *caseRun { return e.newCaseSz(mut, e.p.sizes) }
+
+func (e *env) newCaseSz(mut *mutation, sizes [][2][]int) *caseRun {
 	e.mu.Lock()
 	id := e.nextID
 	e.nextID++
-	cr := &caseRun{id: id, p: e.p, mut: mut, connState: &connState{victim: true}, sidIdx: map[uint32]int{}}
-	for i, sz := range e.p.sizes {
+	cr := &caseRun{id: id, p: e.p, mut: mut, connState: &connState{victim: true}, sidIdx: map[uint32]int{},
+		dgBySeq: [2]map[string][]byte{{}, {}}, dgBoxes: [2]map[string][]box{{}, {}}}
+	for i, sz := range sizes {
 		var sc script
 		off := 0
 		all := content(id, i, 0, sum(sz[0]))
@@ -357,6 +372,9 @@ func (e *env) runClient(cr *caseRun, m *protocol.Mux, hook func()) {
 					return
 				}
 			}
+			if cr.gap && cr.gapDir == 0 {
+				return // close at once, with the data in flight
+			}
 			tmp := &sideRes{}
 			ok := readN(c, total(sc.s2c), tmp, 300*time.Second)
 			cr.mu.Lock()
@@ -386,7 +404,24 @@ func (e *env) runClient(cr *caseRun, m *protocol.Mux, hook func()) {
 }
 
 func (e *env) runCase(mut *mutation, hook func(cr *caseRun)) *caseRun {
-	cr := e.newCase(mut)
+	return e.runCaseOn(e.newCase(mut), hook)
+}
+
+// runGap: one session; the sender of direction dir writes 6000 bytes in one Write and closes at once; the data
+// datagram with sequence number seq and all its retransmissions are damaged, everything else gets through.
+func (e *env) runGap(dir int, seq uint32) *caseRun {
+	sizes := [][2][]int{{{6000}, {}}}
+	if dir == 1 {
+		sizes = [][2][]int{{{hdrLen}, {6000}}}
+	}
+	cr := e.newCaseSz(&mutation{dir: dir, from: int(seq), class: "body", kind: "gap-close"}, sizes)
+	cr.gap, cr.gapDir, cr.gapSeq = true, dir, seq
+	return e.runCaseOn(cr, nil)
+}
+
+func (e *env) runCaseOn(cr *caseRun, hook func(cr *caseRun)) *caseRun {
+	mut := cr.mut
+	_ = mut
 	nw := e.rg.Net
 	nw.Log.Off = true
 	cr.now = time.Now().Unix() / 60
@@ -597,6 +632,8 @@ func (e *env) tcpMitm1(cr *caseRun, cs *connState, dir int, data []byte) []byte 
 		for range bs {
 			cs.nextNonce[dir] = rc.NonceInc(cs.nextNonce[dir])
 		}
+		cs.rawSegs[dir] = append(cs.rawSegs[dir], append([]byte(nil), data...))
+		cs.nonceAfter[dir] = append(cs.nonceAfter[dir], append([]byte(nil), cs.nextNonce[dir]...))
 		if dir == 0 && len(seg.Payload) >= hdrLen && binary.BigEndian.Uint32(seg.Payload[:4]) == cr.id {
 			if _, seen := cr.sidIdx[seg.Meta.SessionID]; !seen && int(seg.Payload[4]) < len(cr.sids) {
 				cr.sidIdx[seg.Meta.SessionID] = int(seg.Payload[4])
@@ -625,6 +662,20 @@ func (e *env) tcpMitm1(cr *caseRun, cs *connState, dir int, data []byte) []byte 
 	}
 	_ = idx
 	switch mut.kind {
+	case "reflect":
+		// the receiver's OWN direction is fed back to it: the bytes of this direction are withheld; when its second
+		// write comes (the opposite direction has been written completely by then) the receiver gets the opposite
+		// direction's nonce advanced over the segments 0..pos followed by that direction's segment pos+1
+		o := 1 - dir
+		if idx == 0 {
+			return nil
+		}
+		if len(cs.rawSegs[o]) < mut.pos+2 {
+			return data
+		}
+		cr.fired, cr.lenChange, cs.cut = true, true, true
+		seg0 := cs.rawSegs[o][mut.pos+1]
+		return append(append([]byte(nil), cs.nonceAfter[o][mut.pos]...), seg0...)
 	case "skiphead":
 		// remove the leading segments 0..from, put the nonce header n0 + (number of boxes removed) in front of the rest
 		cs.skipped++
@@ -763,6 +814,33 @@ func (e *env) udpMitm(cr *caseRun, dir, k int, data []byte) []simnet.Delivery {
 		}
 	}
 	l := layoutOf(&seg, len(data), true)
+	skey := fmt.Sprintf("%d/%d", seg.Meta.SessionID, seg.Meta.Seq)
+	if seg.Meta.IsData() && len(seg.Payload) > 0 && !cr.gap {
+		if _, seen := cr.dgBySeq[dir][skey]; !seen {
+			cr.dgBySeq[dir][skey] = append([]byte(nil), data...)
+			cr.dgBoxes[dir][skey] = boxesOf(&seg, data, l, seg.Nonce, seg.Nonce)
+		}
+	}
+	if cr.gap {
+		if dir != cr.gapDir {
+			return []simnet.Delivery{{}}
+		}
+		if seg.Meta.IsData() && seg.Meta.Seq == cr.gapSeq {
+			// this datagram and every retransmission of it: one ciphertext bit flipped (discarded as if lost)
+			x := append([]byte(nil), data...)
+			x[l.off["body"][0]] ^= 0x10
+			cr.gapHits++
+			cr.fired = true
+			return []simnet.Delivery{{Data: x}}
+		}
+		switch {
+		case seg.Meta.Proto == rc.CloseSessionRequest || seg.Meta.Proto == rc.CloseSessionResponse:
+			cr.gapEvents = append(cr.gapEvents, "C")
+		case seg.Meta.IsData() || seg.Meta.Proto == rc.OpenSessionRequest || seg.Meta.Proto == rc.OpenSessionResponse:
+			cr.gapEvents = append(cr.gapEvents, fmt.Sprintf("A:%d:%s", seg.Meta.Seq, hx(seg.Payload)))
+		}
+		return []simnet.Delivery{{}}
+	}
 	if k < 40 && len(cr.boxes[dir]) < 60 {
 		// keep the first datagrams for the sweeps
 		cr.boxes[dir] = append(cr.boxes[dir], box{nonce: []byte{byte(len(cr.orig[dir]))}})
@@ -778,6 +856,15 @@ func (e *env) udpMitm(cr *caseRun, dir, k int, data []byte) []simnet.Delivery {
 	bs := boxesOf(&seg, data, l, seg.Nonce, seg.Nonce)
 	var out []byte
 	switch mut.kind {
+	case "reflect":
+		// the receiver's own datagram with the same session id and sequence number in place of the peer's
+		own, ok := cr.dgBySeq[1-dir][skey]
+		if !ok || !seg.Meta.IsData() || len(seg.Payload) == 0 || int(seg.Meta.Seq) < 1+mut.pos {
+			return []simnet.Delivery{{}}
+		}
+		out = own
+		bs = append(bs, cr.dgBoxes[1-dir][skey]...)
+		cr.fired, cr.lenChange = true, len(own) != len(data)
 	case "metabox":
 		if seg.Meta.PayloadLen != 32 || seg.Meta.IsLowEntropy() {
 			return []simnet.Delivery{{}}
@@ -989,6 +1076,12 @@ func (e *env) judge(cr *caseRun) {
 		}{{"server", sr.read, append(cat(sc.c2s), 'K')}, {"client", cl.read, cat(sc.s2c)}} {
 			if !isPrefix(x.got, x.written) {
 				sig := "read-differs-from-written"
+				if cr.mut != nil && cr.mut.kind == "reflect" {
+					sig = "reflected-own-direction-read-by-application"
+				}
+				if cr.gap {
+					sig = "udp-released-across-a-missing-segment"
+				}
 				if cr.mut != nil && cr.mut.kind == "skiphead" {
 					sig = "tcp-nonce-header-rewrite-skips-leading-segments"
 				}
@@ -1011,6 +1104,14 @@ func (e *env) judge(cr *caseRun) {
 		R.Count(p.transport + ":e2e-complete")
 	} else {
 		R.Count(p.transport + ":e2e-ended-early")
+	}
+	if cr.gap || (cr.mut != nil && cr.mut.kind == "reflect") {
+		// prefix only: the gap family ends with a clean EOF after a prefix (the truncation is C03's finding); a reflected
+		// datagram is refused by its type and that refusal closes the session
+		if !complete {
+			R.Count(p.transport + ":" + cr.mut.kind + ":ended-after-prefix")
+		}
+		return
 	}
 	if p.transport == "udp" && !complete && !(cr.mut != nil && cr.mut.kind == "metabox") {
 		rep("udp-stream-not-completed", fmt.Sprintf("udp %s: a session did not complete intact although every retransmission was delivered unmodified (cli=%v srv=%v)", name, sideSum(cr.cli), sideSum(cr.srv)))
@@ -1040,7 +1141,11 @@ func (e *env) emitE(cr *caseRun) {
 	m := cr.mut
 	dir := m.dir
 	var sb strings.Builder
-	fmt.Fprintf(&sb, "E %s %d %s %s %d", tagOf(cr, cr.lenChange), cr.now, tableStr(append(append([]box(nil), cr.boxes[dir]...), e.donorBoxesFor(m.kind, dir)...)), hx(cr.sent[dir]), len(cr.sids))
+	tbl := append(append([]box(nil), cr.boxes[dir]...), e.donorBoxesFor(m.kind, dir)...)
+	if m.kind == "reflect" {
+		tbl = append(tbl, cr.boxes[1-dir]...) // one key for both directions
+	}
+	fmt.Fprintf(&sb, "E %s %d %s %s %d", tagOf(cr, cr.lenChange), cr.now, tableStr(tbl), hx(cr.sent[dir]), len(cr.sids))
 	onVictim := map[int]bool{}
 	for _, i := range cr.sidIdx {
 		onVictim[i] = true
@@ -1062,6 +1167,7 @@ func (e *env) emitE(cr *caseRun) {
 		}
 		impl = append(impl, fmt.Sprintf("%d:%d:%x", sid, len(got), md5.Sum(got)))
 	}
+	sb.WriteString([]string{" S", " C"}[dir]) // role of the receiving side
 	R.Case(sb.String(), strings.Join(impl, " "))
 }
 
@@ -1306,6 +1412,51 @@ func main() {
 							}
 						}
 					}
+				}
+			}
+		}
+		// reflection of the same session's opposite direction; close with data in flight behind a damaged datagram
+		type rf struct{ dir, pos int }
+		rfs := []rf{{1, 0}, {1, 1}}
+		if p.transport == "udp" {
+			rfs = []rf{{1, 0}, {1, 2}, {0, 0}, {0, 3}}
+		}
+		for _, x := range rfs {
+			cr := e.runCase(&mutation{dir: x.dir, from: 0, class: "boundary", kind: "reflect", pos: x.pos}, nil)
+			if !cr.fired {
+				R.Count("mutation-not-fired:reflect")
+				continue
+			}
+			e.judge(cr)
+			R.Count(p.transport + ":e2e:reflect")
+			R.Distinct(tagOf(cr, cr.lenChange))
+			if p.transport == "tcp" {
+				e.emitE(cr)
+			} else {
+				for i := range cr.ucases {
+					R.Case(cr.ucases[i], cr.uimpls[i])
+				}
+			}
+		}
+		if p.transport == "udp" {
+			for dir := 0; dir < 2; dir++ {
+				for _, q := range []uint32{1, 3} {
+					cr := e.runGap(dir, q)
+					if !cr.fired {
+						R.Count("mutation-not-fired:gap-close")
+						continue
+					}
+					e.judge(cr)
+					cr.mu.Lock()
+					got := cr.srv[0].read
+					if dir == 1 {
+						got = cr.cli[0].read
+					}
+					evs := append([]string(nil), cr.gapEvents...)
+					cr.mu.Unlock()
+					R.Case(fmt.Sprintf("G %s/seq%d %d %s", tagOf(cr, false), q, len(evs), strings.Join(evs, " ")), fmt.Sprintf("%d:%x", len(got), md5.Sum(got)))
+					R.Count("udp:e2e:gap-close")
+					R.Distinct(fmt.Sprintf("%s/seq%d", tagOf(cr, false), q))
 				}
 			}
 		}
